@@ -17,7 +17,8 @@ func C12(c *Ctx) int {
 	var ps []*prog.Program
 	for i := 0; i < n; i++ {
 		f := gen.Features{Xor: true, And: i%2 == 0, Or: i%5 == 0, Loop: i%3 == 1, Sub: true, SubWeight: 3,
-			EndInBranch: i%4 == 2, MaxDepth: 3 + i%3, MaxSize: 4 + i%6, MaxBranch: 2 + i%2}
+			EndInBranch: i%4 == 2, MaxDepth: 3 + i%3, MaxSize: 4 + i%6, MaxBranch: 2 + i%2,
+			EmptyBranch: i%4 == 1, OlderVar: i%3 == 2, Throws: i%5 == 4}
 		p := gen.Random(fmt.Sprintf("c12_%d_%d", c.Seed, i), c.Seed*1000+int64(i), f)
 		if !p.HasTag("sub") {
 			continue
